@@ -8,6 +8,7 @@ import (
 	"hash/fnv"
 	"math/rand"
 	"os"
+	"runtime"
 	"runtime/debug"
 	"sort"
 
@@ -320,6 +321,10 @@ func (b *bufRun) sequence(steps []BStep) {
 
 // RunBuf replays generated (or random) write sequences into the real buffer machinery.
 func RunBuf(seed int64, seqs [][]BStep) (out []Ev) {
+	// commit.Open wraps its file in an s2.Writer, whose writer goroutine (started at once when GOMAXPROCS > 1) only
+	// ends when the s2.Writer is closed - which commit.Log never does. A long run of this family opens hundreds of
+	// thousands of logs: it runs on one P, where s2 starts no goroutine.
+	defer runtime.GOMAXPROCS(runtime.GOMAXPROCS(1))
 	w := NewWorld()
 	b := &bufRun{w: w, rnd: rand.New(rand.NewSource(seed))}
 	defer func() {
